@@ -46,7 +46,7 @@ generic = z3.Function("generic_result", I, I, I, I, I, B)   # generic_result(opc
 
 PYLONG_SHIFT = 30
 OPCODES = {"pow": 1, "ipow": 1, "lshift": 2, "add": 3, "sub": 4, "mul": 5, "floordiv": 6, "mod": 7, "and": 8, "or": 9, "xor": 10,
-           "rshift": 11, "truediv": 12, "richcmp": 13, "getitem": 14, "index": 15, "long": 16}
+           "rshift": 11, "truediv": 12, "richcmp": 13, "getitem": 14, "index": 15, "long": 16, "setitem": 17, "delitem": 18}
 
 
 PYNUMBER = {"Add": "add", "Subtract": "sub", "Multiply": "mul", "FloorDivide": "floordiv", "Remainder": "mod", "And": "and", "Or": "or",
@@ -196,6 +196,12 @@ class CExecPyObj(CExecL3):
             # Py_TYPE(o) is one type: the exact-type predicates are views of one function
             st.path.append(z3.And(is_long(oid) == (exact_type(oid) == TYPE_IDS["PyLong_Type"]),
                                   is_float(oid) == (exact_type(oid) == TYPE_IDS["PyFloat_Type"])))
+            if tn == "global:PyList_Type":
+                st.path.append(is_list(oid) == (exact_type(oid) == TYPE_IDS["PyList_Type"]))
+                return from_bool(is_list(oid), ty)
+            if tn == "global:PyTuple_Type":
+                st.path.append(is_tuple(oid) == (exact_type(oid) == TYPE_IDS["PyTuple_Type"]))
+                return from_bool(is_tuple(oid), ty)
             if tn == "global:PyLong_Type":
                 return from_bool(is_long(oid), ty)
             if tn == "global:PyFloat_Type":
@@ -315,6 +321,41 @@ class CExecPyObj(CExecL3):
                 st.path.append(z3.And(blen(o) >= 0, blen(o) < 2 ** 62))
             self.assumptions.add("PyBytes_AS_STRING(o) points to len(o) + 1 readable chars (the contents and a terminating NUL)")
             return Ptr(ty, oname, z3.IntVal(0))
+        if name == "Py_REFCNT":
+            self.ev(st, argn[0])
+            r = self.fresh("refcnt")
+            st.path.append(z3.And(r >= 1, r < 2 ** 62))
+            self.assumptions.add("Py_REFCNT(o): some positive count (reference counts are not modelled)")
+            return CV(ty, r)
+        if name in ("PyList_GET_ITEM", "PyList_SET_ITEM"):
+            o = self.oid(self.ev(st, argn[0]))
+            idx = self.ev(st, argn[1])
+            st.path.append(z3.And(seq_len(o) >= 0, seq_len(o) < 2 ** 62))
+            self.oblige(st, "ub", "oob_%s.ob_item" % ("read" if name.endswith("GET_ITEM") else "write"), z3.And(idx.t >= 0, idx.t < seq_len(o)), n)
+            key = "liststore[%s]" % o
+            if key not in st.mem:
+                st.mem[key] = z3.K(I, z3.IntVal(0))      # 0 = slot not written by the subject
+            if name == "PyList_GET_ITEM":
+                cur = z3.Select(st.mem[key], idx.t)
+                r = z3.If(cur == 0, item(o, idx.t), cur)
+                st.path.append(item(o, idx.t) >= 1)
+                return Ptr(parse_type("PyObject *"), "pyobj", r)
+            v = self.oid(self.ev(st, argn[2]))
+            st.mem[key] = z3.Store(st.mem[key], idx.t, v)
+            st.mem["liststores[%s]" % o] = st.mem.get("liststores[%s]" % o, z3.IntVal(0)) + 1
+            self.assumptions.add("PyList_GET_ITEM / PyList_SET_ITEM read / overwrite slot ob_item[i] (0 <= i < size is an obligation)")
+            return None
+        if name == "__Pyx_SetItemInt_Generic":
+            o = self.oid(self.ev(st, argn[0]))
+            j = self.oid(self.ev(st, argn[1]))
+            v = self.oid(self.ev(st, argn[2]))
+            r = self.fresh("setitem_generic")
+            st.path.append(z3.And(r >= -1, r <= 0, generic(z3.IntVal(OPCODES["setitem"]), o, j, v, r)))
+            e2 = self.fresh("err_after_setitem")
+            st.path.append(z3.Implies(r == 0, e2 == st.err))
+            st.err = e2
+            self.assumptions.add("calls into CPython's generic protocol (PyNumber_*, PyObject_*) return CPython's own result")
+            return CV(ty, r)
         if name == "PyLong_AsDouble":
             o = self.oid(self.ev(st, argn[0]))
             self.oblige(st, "pre", "PyLong_AsDouble.argument_is_an_int", is_long(o), n)
